@@ -64,6 +64,13 @@ def spec_le(a, b, vdims):
     return a == b or spec_lt(a, b, vdims)
 
 
+n_alarm_tmp = [0]
+
+
+def quick_tier(ctx):
+    return ctx.tier == "quick"
+
+
 def run(ctx):
     objs, twins, vdims = universe(ctx.tier)
     ds = ",".join(str(d) for d in vdims)
@@ -187,5 +194,26 @@ def run(ctx):
             ctx.ask("coerce", [ds, case["types"]], cb)
     if not getattr(ctx, "no_driver", False):
         ctx.flush(DRIVER)
+    # short-lived type objects: the same questions asked of temporaries that are created, compared and dropped
+    # (their addresses are reused by later objects); the answer depends on what the object IS, not on where it lives
+    import gc
+    vt = [o for o in objs if isinstance(o[0], T.TVocabulary)]
+    n_tmp = 4000 if quick_tier(ctx) else 40000
+    for i in range(n_tmp):
+        kind = i % 4
+        d_ = (16, 32, 64, 16)[(i // 4) % 4]
+        tmp = (T.TAnyVocabOfDim(d_) if kind < 2 else (T.Type("TScalar") if kind == 2 else __import__("copy").copy(T.TAnyVocab)))
+        V, vtok = vt[i % len(vt)]
+        vd = V.vocab.dimensions
+        want_lt = spec_lt(f"D:{d_}" if kind < 2 else ("S" if kind == 2 else "A"), vtok, vdims)
+        got_lt = bool(tmp < V)
+        if got_lt != want_lt and n_alarm_tmp[0] < 20:
+            n_alarm_tmp[0] += 1
+            ctx.fail({"op": "temporary-compared", "temporary": repr(tmp), "with": vtok, "iteration": i}, got_lt, want_lt,
+                     where="comparison-operators")
+        del tmp
+        if i % 500 == 499:
+            gc.collect()
+    ctx.count("temporaries compared with the vocabulary types", nontrivial=True, branch="temporaries")
     ctx.extra["exhaustive"] = True
     ctx.extra["universe"] = [t for _, t in objs]
